@@ -32,6 +32,27 @@ def step (s : St) (toks : List String) : St × String :=
       let r := getBucket s.db b
       ({ db := r.1, slots := (n, r.2) :: s.slots.filter (fun p => p.1 != n) }, "ok")
     | _, _ => (s, "bad-op")
+  | "copen" :: b :: order :: slots =>
+    -- concurrent opens of one bucket id, linearised as sequential opens
+    match Hex.decodeWire b, slots.mapM (·.toNat?) with
+    | some b, some ns =>
+      if (ns.length = 2 ∨ ns.length = 3) ∧ order.length = ns.length ∧ order.toList.all (fun c => c = '0' ∨ c = '1' ∨ c = '2') then
+        let s' := ns.foldl (fun (s : St) n =>
+          let r := getBucket s.db b
+          { db := r.1, slots := (n, r.2) :: s.slots.filter (fun p => p.1 != n) }) s
+        (s', "ok")
+      else (s, "bad-op")
+    | _, _ => (s, "bad-op")
+  | ["copenflush", b, n, w] =>
+    -- GetBucket overlapping Flush, linearised as open; flush
+    match Hex.decodeWire b, n.toNat? with
+    | some b, some n =>
+      if w == "1" || w == "0" then
+        let r := getBucket s.db b
+        let f := flush r.1 (w == "1")
+        ({ db := f.1, slots := (n, r.2) :: s.slots.filter (fun p => p.1 != n) }, if f.2 then "ok" else "err")
+      else (s, "bad-op")
+    | _, _ => (s, "bad-op")
   | ["set", n, k, v] =>
     match n.toNat?, Hex.decodeWire k, Hex.decodeWire v with
     | some n, some k, some v =>
